@@ -3319,7 +3319,12 @@ impl Bindgen for FunctionBindgen<'_, '_> {
                     let name = self.r#gen.r#gen.type_name(&Type::Id(*ty));
                     let op0 = &operands[0];
                     let op1 = &operands[1];
-                    results.push(format!("(({name}) ({op0})) | ((({name}) ({op1})) << 32)"));
+                    // The core values are `int32_t`: convert through `uint32_t`
+                    // so that a set bit 31 is not sign-extended into the
+                    // upper word.
+                    results.push(format!(
+                        "(({name}) (uint32_t) ({op0})) | ((({name}) (uint32_t) ({op1})) << 32)"
+                    ));
                 }
             },
 
